@@ -13,6 +13,10 @@
     with `ub = false` and the flags `hi`, `bl` down ends with a string (never a byte string) and
     with `hi`, `bl` down;
   * `parseElispStr_vc`: so the body consumed is valid UTF-8;
+  * after the repair of the escaped blank (`parse_elisp_escape` rejects a continuation byte behind
+    `\ `): `NoNumEsc` (only `x` and octal digits are excluded), `parseElispStrT_clean_num`,
+    `parseElispStr_vc_num`, and the `_num` versions of the theorems below; the `NoByteEsc`
+    statements are corollaries (`NoByteEsc.toNum`);
   * `parseToken_vc_all`: every token, every option set (the proof of `InTok.parseToken_vc` with
     the string arm split on the string syntax).
 -/
@@ -88,6 +92,64 @@ theorem NoByteEsc.of_no92 {l : List UInt8} (h : ∀ b ∈ l, b ≠ 92) : NoByteE
   intro pre c post hl
   exact absurd rfl (h 92 (by rw [hl]; simp))
 
+/-! ### the condition after the repair of the escaped blank
+
+  With the check behind an escaped blank (`parse_elisp_escape`, the arm `b' '`) the blank no longer
+  joins a sequence, and the condition only has to exclude the NUMERIC escapes. -/
+
+/-- no backslash of `l` is directly followed by `x` or by an octal digit -/
+def NoNumEsc (l : List UInt8) : Prop :=
+  ∀ pre c post, l = pre ++ 92 :: c :: post → c ≠ 120 ∧ ¬ (48 ≤ c ∧ c ≤ 55)
+
+theorem NoByteEsc.toNum {l : List UInt8} (h : NoByteEsc l) : NoNumEsc l :=
+  fun pre c post hl => (h pre c post hl).2
+
+theorem NoNumEsc.suffix {p l : List UInt8} (h : NoNumEsc (p ++ l)) : NoNumEsc l := by
+  intro pre c post hl
+  exact h (p ++ pre) c post (by rw [hl, List.append_assoc])
+
+theorem NoNumEsc.prefix {l q : List UInt8} (h : NoNumEsc (l ++ q)) : NoNumEsc l := by
+  intro pre c post hl
+  exact h pre c (post ++ q) (by rw [hl]; simp)
+
+theorem NoNumEsc.nil : NoNumEsc [] := by
+  intro pre c post h
+  cases pre <;> cases h
+
+/-- the byte allowed after a backslash -/
+def okAfterNum (c : UInt8) : Bool := c != 120 && !(decide (48 ≤ c) && decide (c ≤ 55))
+
+/-- the condition, as a program -/
+def noNumEscB : List UInt8 → Bool
+  | [] => true
+  | b :: t => (b != 92 || (match t with | [] => true | c :: _ => okAfterNum c)) && noNumEscB t
+
+theorem okAfterNum_spec {c : UInt8} (h : okAfterNum c = true) :
+    c ≠ 120 ∧ ¬ (48 ≤ c ∧ c ≤ 55) := by
+  simp only [okAfterNum, Bool.and_eq_true, bne_iff_ne, ne_eq, Bool.not_eq_true',
+    Bool.and_eq_false_iff, decide_eq_false_iff_not] at h
+  refine ⟨h.1, fun hc => ?_⟩
+  rcases h.2 with h2 | h2
+  · exact h2 hc.1
+  · exact h2 hc.2
+
+theorem noNumEscB_spec : ∀ {l : List UInt8}, noNumEscB l = true → NoNumEsc l
+  | [], _ => NoNumEsc.nil
+  | b :: t, h => by
+    simp only [noNumEscB, Bool.and_eq_true, Bool.or_eq_true, bne_iff_ne, ne_eq] at h
+    obtain ⟨h1, h2⟩ := h
+    intro pre c post hl
+    cases pre with
+    | nil =>
+      simp only [List.nil_append, List.cons.injEq] at hl
+      obtain ⟨rfl, rfl⟩ := hl
+      rcases h1 with h1 | h1
+      · exact absurd rfl h1
+      · exact okAfterNum_spec h1
+    | cons x pre' =>
+      simp only [List.cons_append, List.cons.injEq] at hl
+      exact noNumEscB_spec h2 pre' c post hl.2
+
 /-! ### which escapes report `Unibyte` -/
 
 set_option hygiene false in
@@ -104,7 +166,12 @@ theorem parseElispEscape_unibyte_head {fuel : Nat} {acc acc' : List UInt8} {s s'
   obtain ⟨c, s1, hn, h⟩ := bind_ok h
   obtain ⟨_, hr1⟩ := nextOrEof_ok hn
   refine ⟨c, s1.rd.rest, hr1, ?_⟩
-  uni_one; uni_one; uni_one; uni_one; uni_one; uni_one; uni_one; uni_one; uni_one; uni_one
+  uni_one; uni_one
+  -- the escaped blank
+  rcases ite_ok h with ⟨_, h⟩ | ⟨_, h⟩
+  · obtain ⟨h1, _⟩ := blank_arm_ok h
+    cases h1
+  uni_one; uni_one; uni_one; uni_one; uni_one; uni_one; uni_one
   uni_one; uni_one; uni_one
   -- `^`
   rcases ite_ok h with ⟨_, h⟩ | ⟨_, h⟩
@@ -265,6 +332,96 @@ theorem parseElispStr_vc {fuel : Nat} {S S' : St} {r : ElispStr}
   have hm := ((SufP.parseElispStr fuel [] false false false).ok _ _ _ h).1
   exact ⟨⟨hm, w0 ++ [34], C17_elisp_input_valid ht valid_nil hw hhi hbl, hw⟩, s, rfl⟩
 
+/-- **Over a body without numeric escapes the loop never leaves the clean case** (after the
+    repair of the escaped blank, which may now occur): entered with `ub = false` and `hi` down, it
+    ends with a string — never a byte string — and with `hi` down. -/
+theorem parseElispStrT_clean_num (f : Nat) : ∀ {acc : List UInt8} {ub mb na : Bool}
+    {fl0 fl : Flags} {S S' : St} {r : ElispStr},
+    parseElispStrT f acc ub mb na fl0 S = .ok (r, fl) S' →
+    ∃ w, S.rd.rest = w ++ 34 :: S'.rd.rest ∧
+      (NoNumEsc w → ub = false → fl0.hi = false → fl.hi = false ∧ ∃ s, r = .multibyte s) := by
+  induction f with
+  | zero => intro acc ub mb na fl0 fl S S' r h; simp [parseElispStrT, outOfFuel] at h
+  | succ f ih =>
+    intro acc ub mb na fl0 fl S S' r h
+    simp only [parseElispStrT] at h
+    obtain ⟨c, s1, hn, h⟩ := bind_ok h
+    obtain ⟨_, hr⟩ := nextOrEof_ok hn
+    rcases ite_ok h with ⟨h34, h⟩ | ⟨_, h⟩
+    · -- the closing quote
+      rw [eq_of_beq h34] at hr
+      rcases ite_ok h with ⟨hu, h⟩ | ⟨_, h⟩
+      · obtain ⟨h1, h2⟩ := pure_ok h
+        cases h1; subst h2
+        refine ⟨[], hr, fun _ hub _ => ?_⟩
+        subst hub
+        simp at hu
+      · obtain ⟨o, s2, hf, h⟩ := bind_ok h
+        obtain ⟨h1, h2⟩ := pure_ok h
+        cases h1; subst h2
+        have hs2 := finishStr_state hf
+        subst hs2
+        exact ⟨[], hr, fun _ _ hhi => ⟨hhi, _, rfl⟩⟩
+    rcases ite_ok h with ⟨h92, h⟩ | ⟨_, h⟩
+    · -- an escape
+      rw [eq_of_beq h92] at hr
+      obtain ⟨rest, s1', hg, h⟩ := bind_ok h
+      have hg' : s1.rd.rest = rest ∧ s1 = s1' := by
+        simp only [getRest, Res.ok.injEq] at hg
+        exact ⟨hg.1, hg.2⟩
+      obtain ⟨rfl, rfl⟩ := hg'
+      obtain ⟨⟨acc', k⟩, s2, he, h⟩ := bind_ok h
+      obtain ⟨c', t, out, hr1, rfl, hsh⟩ := parseElispEscape_shape he
+      have hrec : ∃ ub' mb', parseElispStrT f (acc ++ out) ub' mb' na
+          (fl0.or (escFlags acc s1.rd.rest (acc ++ out) k)) s2 = .ok (r, fl) S' ∧
+          (k ≠ .unibyte → ub' = ub) := by
+        cases k
+        · exact ⟨_, _, h, fun hk => absurd rfl hk⟩
+        · exact ⟨_, _, h, fun _ => rfl⟩
+        · exact ⟨_, _, h, fun _ => rfl⟩
+      obtain ⟨ub', mb', hrec, hub'⟩ := hrec
+      obtain ⟨w2, hr2, himp⟩ := ih hrec
+      refine ⟨92 :: c' :: t ++ w2, by rw [hr, hr1, hr2]; simp, fun hnb hub hhi => ?_⟩
+      obtain ⟨hc120, hcoct⟩ := hnb [] c' (t ++ w2) (by simp)
+      have hk : k ≠ .unibyte := by
+        intro hk
+        subst hk
+        obtain ⟨c2, tl, hr3, hc2⟩ := parseElispEscape_unibyte_head he
+        have : c2 = c' := by rw [hr1] at hr3; cases hr3; rfl
+        subst this
+        rcases hc2 with hc2 | hc2
+        · exact hc120 hc2
+        · exact hcoct hc2
+      have hnb2 : NoNumEsc w2 := by
+        have : 92 :: c' :: t ++ w2 = (92 :: c' :: t) ++ w2 := rfl
+        rw [this] at hnb
+        exact hnb.suffix
+      have hhi' : (fl0.or (escFlags acc s1.rd.rest (acc ++ out) k)).hi = false := by
+        cases k
+        · exact absurd rfl hk
+        · simp only [Flags.or, escFlags, hhi, Bool.false_or]
+        · simp only [Flags.or, escFlags, hhi, Bool.false_or]
+      exact himp hnb2 ((hub' hk).trans hub) hhi'
+    · -- a raw byte
+      obtain ⟨w2, hr2, himp⟩ := ih h
+      refine ⟨c :: w2, by rw [hr, hr2]; rfl, fun hnb hub hhi => ?_⟩
+      exact himp (NoNumEsc.suffix (p := [c]) hnb) hub hhi
+
+/-- **Emacs Lisp strings over a body without numeric escapes**: the result is a string and the
+    body consumed — up to and including the closing quote — is valid UTF-8
+    (`C17_elisp_input_valid_noblank`). -/
+theorem parseElispStr_vc_num {fuel : Nat} {S S' : St} {r : ElispStr}
+    (h : parseElispStr fuel [] false false false S = .ok r S')
+    (hnb : ∀ w, S.rd.rest = w ++ S'.rd.rest → NoNumEsc w) :
+    VC S S' ∧ ∃ s, r = .multibyte s := by
+  obtain ⟨fl, ht⟩ := parseElispStrT_of_ok {} h
+  obtain ⟨w0, hr0, himp⟩ := parseElispStrT_clean_num fuel ht
+  have hw : S.rd.rest = (w0 ++ [34]) ++ S'.rd.rest := by rw [hr0]; simp
+  have hnb0 : NoNumEsc w0 := (hnb _ hw).prefix
+  obtain ⟨hhi, s, rfl⟩ := himp hnb0 rfl rfl
+  have hm := ((SufP.parseElispStr fuel [] false false false).ok _ _ _ h).1
+  exact ⟨⟨hm, w0 ++ [34], C17_elisp_input_valid_noblank ht valid_nil hw hhi, hw⟩, s, rfl⟩
+
 /-! ### every token, every option set -/
 
 /-- close a branch `pure tok0` at a state known to be fine -/
@@ -272,11 +429,11 @@ local macro "tok_done" h:ident hs:ident : tactic => `(tactic| (
   rw [← (pure_ok $h).2]; exact $hs))
 
 /-- **Every token consumes a valid chunk, for every option set** (slice and stream sources).
-    Under the Emacs Lisp string syntax the text of the token must satisfy `NoByteEsc`. -/
-theorem parseToken_vc_all {cfg : Cfg} {fuel : Nat} {pk : UInt8} {s s' : St} {tok : Token}
+    Under the Emacs Lisp string syntax the text of the token must satisfy `NoNumEsc`. -/
+theorem parseToken_vc_all_num {cfg : Cfg} {fuel : Nat} {pk : UInt8} {s s' : St} {tok : Token}
     (h : parseToken cfg fuel pk s = .ok tok s') (hpk : s.rd.rest.head? = some pk)
     (hm : s.rd.mode ≠ .str)
-    (hnb : cfg.opts.string = .elisp → ∀ w, s.rd.rest = w ++ s'.rd.rest → NoByteEsc w) :
+    (hnb : cfg.opts.string = .elisp → ∀ w, s.rd.rest = w ++ s'.rd.rest → NoNumEsc w) :
     VC s s' := by
   have hs : VC s s := VC.refl s
   have hhead : pk < 0x80 → HeadA s := by
@@ -396,9 +553,9 @@ theorem parseToken_vc_all {cfg : Cfg} {fuel : Nat} {pk : UInt8} {s s' : St} {tok
         | multibyte b => exact (pure_ok h).2
       subst hs2
       obtain ⟨_, b, hr1⟩ := discard_ok hd
-      refine hs1.trans (parseElispStr_vc hp (fun w hw => ?_)).1
+      refine hs1.trans (parseElispStr_vc_num hp (fun w hw => ?_)).1
       have := hnb hstr (b :: w) (by rw [hr1, hw]; rfl)
-      exact NoByteEsc.suffix (p := [b]) this
+      exact NoNumEsc.suffix (p := [b]) this
   -- '('
   rcases ite_ok h with ⟨hc, h⟩ | ⟨_, h⟩
   · have hpka : pk < 0x80 := by rw [eq_of_beq hc]; decide
@@ -496,34 +653,57 @@ theorem parseToken_vc_all {cfg : Cfg} {fuel : Nat} {pk : UInt8} {s s' : St} {tok
     obtain ⟨_, s2, _, h⟩ := bind_ok h
     cases h
 
+/-- the statement with `NoByteEsc`, a corollary of `parseToken_vc_all_num` -/
+theorem parseToken_vc_all {cfg : Cfg} {fuel : Nat} {pk : UInt8} {s s' : St} {tok : Token}
+    (h : parseToken cfg fuel pk s = .ok tok s') (hpk : s.rd.rest.head? = some pk)
+    (hm : s.rd.mode ≠ .str)
+    (hnb : cfg.opts.string = .elisp → ∀ w, s.rd.rest = w ++ s'.rd.rest → NoByteEsc w) :
+    VC s s' :=
+  parseToken_vc_all_num h hpk hm (fun hel w hw => (hnb hel w hw).toNum)
+
 /-- **C17, input clause, every token, EVERY option set** (slice and stream sources): if
     `parse_token` accepts and — only needed under the Emacs Lisp string syntax — the text `w` of
-    the token has no backslash directly followed by a blank, `x` or an octal digit, then `w` is
+    the token has no backslash directly followed by `x` or an octal digit, then `w` is
     valid UTF-8. -/
-theorem C17_token_input_valid_all {cfg : Cfg} {fuel : Nat} {pk : UInt8} {S S' : St} {tok : Token}
+theorem C17_token_input_valid_all_num {cfg : Cfg} {fuel : Nat} {pk : UInt8} {S S' : St} {tok : Token}
     {w : List UInt8} (h : parseToken cfg fuel pk S = .ok tok S')
     (hpk : S.rd.rest.head? = some pk) (hm : S.rd.mode ≠ .str)
-    (hw : S.rd.rest = w ++ S'.rd.rest) (hnb : cfg.opts.string = .elisp → NoByteEsc w) :
+    (hw : S.rd.rest = w ++ S'.rd.rest) (hnb : cfg.opts.string = .elisp → NoNumEsc w) :
     Utf8.valid w = true := by
-  refine (parseToken_vc_all h hpk hm (fun hel w' hw' => ?_)).valid_of hw
+  refine (parseToken_vc_all_num h hpk hm (fun hel w' hw' => ?_)).valid_of hw
   have : w' = w := List.append_cancel_right (hw'.symm.trans hw)
   rw [this]
   exact hnb hel
 
+/-- the statement with `NoByteEsc`, a corollary of `C17_token_input_valid_all_num` -/
+theorem C17_token_input_valid_all {cfg : Cfg} {fuel : Nat} {pk : UInt8} {S S' : St} {tok : Token}
+    {w : List UInt8} (h : parseToken cfg fuel pk S = .ok tok S')
+    (hpk : S.rd.rest.head? = some pk) (hm : S.rd.mode ≠ .str)
+    (hw : S.rd.rest = w ++ S'.rd.rest) (hnb : cfg.opts.string = .elisp → NoByteEsc w) :
+    Utf8.valid w = true :=
+  C17_token_input_valid_all_num h hpk hm hw (fun hel => (hnb hel).toNum)
+
 /-- under the condition, the Emacs Lisp string syntax never yields a byte string -/
-theorem elisp_token_not_bytes {cfg : Cfg} {fuel : Nat} {S S' : St} {tok : Token}
+theorem elisp_token_not_bytes_num {cfg : Cfg} {fuel : Nat} {S S' : St} {tok : Token}
     {w : List UInt8} (h : parseToken cfg fuel 34 S = .ok tok S')
     (hel : cfg.opts.string = .elisp) (hpk : ∃ tl, S.rd.rest = 34 :: tl)
-    (hw : S.rd.rest = w ++ S'.rd.rest) (hnb : NoByteEsc w) : ∃ s, tok = .string s := by
+    (hw : S.rd.rest = w ++ S'.rd.rest) (hnb : NoNumEsc w) : ∃ s, tok = .string s := by
   obtain ⟨S1, r, fl, hr1, ht, htok, _, _⟩ := C17_elisp_token_input_valid h hel hpk hw
   have hp := parseElispStrT_ok ht
-  obtain ⟨_, s, rfl⟩ := parseElispStr_vc hp (fun w' hw' => by
+  obtain ⟨_, s, rfl⟩ := parseElispStr_vc_num hp (fun w' hw' => by
     have : w = 34 :: w' := by
       have : w ++ S'.rd.rest = (34 :: w') ++ S'.rd.rest := by rw [← hw, hr1, hw']; rfl
       exact List.append_cancel_right this
     rw [this] at hnb
-    exact NoByteEsc.suffix (p := [34]) hnb)
+    exact NoNumEsc.suffix (p := [34]) hnb)
   exact ⟨s, htok⟩
+
+/-- the statement with `NoByteEsc`, a corollary of `elisp_token_not_bytes_num` -/
+theorem elisp_token_not_bytes {cfg : Cfg} {fuel : Nat} {S S' : St} {tok : Token}
+    {w : List UInt8} (h : parseToken cfg fuel 34 S = .ok tok S')
+    (hel : cfg.opts.string = .elisp) (hpk : ∃ tl, S.rd.rest = 34 :: tl)
+    (hw : S.rd.rest = w ++ S'.rd.rest) (hnb : NoByteEsc w) : ∃ s, tok = .string s :=
+  elisp_token_not_bytes_num h hel hpk hw hnb.toNum
 
 end InAllOpts
 end Parse
